@@ -32,7 +32,7 @@ TECHNIQUE = (
 )
 LEVEL_TEXT = (
     "All DPTNumeric classes. In range: value_min, value_max, every integer of the declared range when it has <= 70,000 points (quick: complete for one "
-    "class per behaviour signature, every 16th integer for its siblings), a stratified integer sample otherwise, 3,000 (50,000) random floats (uniform "
+    "class per behaviour signature, every 16th integer for its siblings), a stratified integer sample otherwise, 3,000 (200,000; 600 (40,000) for classes sharing code and parameters with an earlier one) random floats (uniform "
     "and log-uniform), and for sampled decode-image points x: x, nextafter(x, +-inf), the midpoint to the next image point and its two float "
     "neighbours. Out of range: nextafter(bound) and fractions of a step beyond each finite bound, one step, 1.5, 2, 10 steps, bound+-1, x2, +-2^31, "
     "+-2^63, +-(2^64+1), +-1e300, +-inf, +-10^400 and random distances. Sampled, hence exploration."
@@ -316,7 +316,7 @@ def _in_range_values(ctx, m, full_ints, n_float):
             for x in (2**bit - 1, 2**bit, 2**bit + 1):
                 out.extend(y for y in (x, -x) if ilo <= y <= ihi)
         lim_lo, lim_hi = max(ilo, -(2**70)), min(ihi, 2**70)
-        for _ in range(ctx.scale(1500, 20000)):
+        for _ in range(ctx.scale(1500, 60000)):
             out.append(rng.randint(lim_lo, lim_hi))
         for _ in range(ctx.scale(500, 5000)):
             x = int(math.copysign(2 ** rng.uniform(0, 70), rng.random() - 0.5))
@@ -345,7 +345,7 @@ def _in_range_values(ctx, m, full_ints, n_float):
     # around decode-image points
     pts = []
     if m.image is not None:
-        k = ctx.scale(400, 4000)
+        k = ctx.scale(400, 20000)
         idx = range(len(m.image)) if len(m.image) <= k else sorted(rng.sample(range(len(m.image)), k))
         for i in idx:
             pts.append((m.image[i], m.image[i + 1] if i + 1 < len(m.image) else None))
@@ -368,7 +368,7 @@ def _in_range_values(ctx, m, full_ints, n_float):
         ctx.count("step_change_points_probed", len(changes))
     else:
         size = G.space_size(m.cls)
-        for _ in range(ctx.scale(300, 3000)):
+        for _ in range(ctx.scale(300, 10000)):
             n = rng.randrange(size - 1)
             s1, x = G.try_decode(m.cls, G.mk(m.cls, n))
             s2, y = G.try_decode(m.cls, G.mk(m.cls, n + 1))
@@ -452,7 +452,7 @@ def run(ctx):
             ctx.inconclusive(f"{cls.__name__}: no usable declared range ({m.lo!r}, {m.hi!r})")
             continue
         full = (not ctx.quick) or cls in reps
-        n_float = ctx.scale(3000 if cls in reps else 600, 50000 if cls in reps else 12000)
+        n_float = ctx.scale(3000 if cls in reps else 600, 200000 if cls in reps else 40000)
         before = dict(ctx.violation_counts)
         buckets = set()
         for v in _in_range_values(ctx, m, full, n_float):
